@@ -1,5 +1,5 @@
 ------------------------------ MODULE MC_C10 ------------------------------
-(* Generator of well-nested lexeme sequences used as inline expressions. *)
+(* Generator of well-nested lexeme sequences used as inline expressions, for every position that accepts one. *)
 EXTENDS Naturals, Sequences, TLC, Json
 CONSTANTS MaxLen, MaxDepth
 Lexemes == {"x", "1", "\"a@~b\"", "'~'", "'a", "::", "=>", "..=", "&&", ".", "!", "|", "?", "@", "~"}
@@ -14,5 +14,5 @@ Close == stack # <<>> /\ lex' = Append(lex, stack[1]) /\ stack' = Tail(stack)
 Next == (\E x \in Lexemes : Push(x)) \/ (\E o \in Opens : Open(o)) \/ Close
 Spec == Init /\ [][Next]_vars
 HasPlaceholder == \E i \in DOMAIN lex : lex[i] \in {"@", "~"}
-Emit == (stack = <<>> /\ lex # <<>> /\ HasPlaceholder) => PrintT(<<"CASE", ToJson([lex |-> lex])>>)
+Emit == (stack = <<>> /\ lex # <<>> /\ HasPlaceholder) => PrintT(<<"CASE", ToJson([lex |-> lex, tilde |-> \E i \in DOMAIN lex : lex[i] = "~"])>>)
 =============================================================================
